@@ -7,9 +7,14 @@ EXTENDS QBFT
 CONSTANTS Inputs,        \* [Honest -> value], 0: the member never obtains a proposal
           MaxRound, MaxTimeouts, DupBudget, MaxByz, Vals,
           Script,        \* scripted prefix (sequence of steps, see ScriptStep); <<>> for none
-          PreStarted     \* TRUE: every member is started and has read its input in the initial state
-VARIABLES dlv, ntimeouts, ndup, nbyz, pc
-mcvars == <<vars, dlv, ntimeouts, ndup, nbyz, pc>>
+          PreStarted,    \* TRUE: every member is started and has read its input in the initial state
+          Silent,        \* members that never start (crashed before the duty began)
+          WinFamily,     \* "none": free exploration after the script; otherwise a STRUCTURED WINDOW: the adversary first
+                         \* injects up to MaxByz messages of this family ("rc", "pp", "votes", "d", "all"), then the pending
+                         \* deliveries are taken in one canonical order with a deliver/lose choice each (2^k instead of k!)
+          WinBudget      \* bound on deliver/lose decisions inside a window
+VARIABLES dlv, ntimeouts, ndup, nbyz, pc, lost, phase, nwin
+mcvars == <<vars, dlv, ntimeouts, ndup, nbyz, pc, lost, phase, nwin>>
 
 \* input assignments selectable from the cfg (Inputs <- InputsX)
 InputsA == [p \in Honest |-> IF p = 0 THEN 1 ELSE 2]              \* two distinct proposals
@@ -20,12 +25,13 @@ QFloor == (2*N) \div 3
 \* state of a member that was started and (if it has one) has read its input; the leader of round 1 has
 \* broadcast its PRE-PREPARE (Start + Input collapsed: both are local steps that commute with everything else)
 StartedSt(p) == [InitSt EXCEPT !.started = TRUE, !.ppjSet = (Leader(1) = p), !.input = Inputs[p], !.timer = 1]
-FirstPP == IF Leader(1) \in Honest /\ Inputs[Leader(1)] # 0
+FirstPP == IF Leader(1) \in Honest \ Silent /\ Inputs[Leader(1)] # 0
              THEN {Full(Base("PP", Leader(1), 1, Inputs[Leader(1)], 0, 0), {})} ELSE {}
 MCInit == /\ IF PreStarted
-               THEN st = [p \in Honest |-> StartedSt(p)] /\ msgs = FirstPP /\ out = NoOut /\ unjust = {}
+               THEN st = [p \in Honest |-> IF p \in Silent THEN InitSt ELSE StartedSt(p)] /\ msgs = FirstPP /\ out = NoOut /\ unjust = {}
                ELSE Init
           /\ dlv = [p \in Honest |-> {}] /\ ntimeouts = 0 /\ ndup = 0 /\ nbyz = 0 /\ pc = 1
+          /\ lost = [p \in Honest |-> {}] /\ phase = "adv" /\ nwin = 0
 
 Subsets(S, k) == {T \in SUBSET S : Cardinality(T) = k}
 \* guided adversary repertoire (DESIGN.md C02): votes for every value, ROUND-CHANGEs with true / forged prepared
@@ -52,14 +58,14 @@ Repertoire == ByzVotes \cup ByzRC \cup ByzPP \cup ByzD
 \* a scripted step: [a |-> "Start"|"Input"|"Timeout", p] or [a |-> "Deliver", p, t, s, r] (the message of type t,
 \* source s, round r -- unique for honest senders) 
 ScriptStep(x) ==
-  /\ pc' = pc + 1 /\ UNCHANGED <<ntimeouts, ndup, nbyz>>
+  /\ pc' = pc + 1 /\ UNCHANGED <<ntimeouts, ndup, nbyz, lost, phase, nwin>>
   /\ CASE x.a = "Start"   -> Start(x.p) /\ UNCHANGED dlv
        [] x.a = "Input"   -> Input(x.p, Inputs[x.p]) /\ UNCHANGED dlv
        [] x.a = "Timeout" -> Timeout(x.p) /\ UNCHANGED dlv
        [] x.a = "Deliver" -> \E m \in msgs : /\ m.type = x.t /\ m.src = x.s /\ m.round = x.r
                                               /\ Deliver(x.p, m) /\ dlv' = [dlv EXCEPT ![x.p] = @ \cup {m}]
 FreeNext ==
-  \/ \E p \in Honest : Start(p) /\ UNCHANGED <<dlv, ntimeouts, ndup, nbyz>>
+  \/ \E p \in Honest \ Silent : Start(p) /\ UNCHANGED <<dlv, ntimeouts, ndup, nbyz>>
   \/ \E p \in Honest : Inputs[p] # 0 /\ Input(p, Inputs[p]) /\ UNCHANGED <<dlv, ntimeouts, ndup, nbyz>>
   \/ \E p \in Honest : /\ st[p].round < MaxRound /\ ntimeouts < MaxTimeouts
                        /\ Timeout(p) /\ ntimeouts' = ntimeouts + 1 /\ UNCHANGED <<dlv, ndup, nbyz>>
@@ -71,12 +77,42 @@ FreeNext ==
   \/ /\ Byz # {} /\ nbyz < MaxByz
      /\ \E m \in Repertoire : m \notin msgs /\ ByzSend(m) /\ nbyz' = nbyz + 1
      /\ UNCHANGED <<dlv, ntimeouts, ndup>>
-MCNext == IF pc <= Len(Script) THEN ScriptStep(Script[pc]) ELSE (FreeNext /\ UNCHANGED pc)
+\* ---- structured window ----
+Family == CASE WinFamily = "rc" -> ByzRC [] WinFamily = "pp" -> ByzPP [] WinFamily = "votes" -> ByzVotes
+            [] WinFamily = "d" -> ByzD [] OTHER -> Repertoire
+TypeRank(t) == CASE t = "PP" -> 0 [] t = "P" -> 1 [] t = "C" -> 2 [] t = "RC" -> 3 [] OTHER -> 4
+Key(x) == ((((x[2].round * 5 + TypeRank(x[2].type)) * N + x[2].src) * N + x[1]) * 3 + x[2].value) * 8 + x[2].pr
+\* pending deliveries: undelivered, not lost, not from a round the receiver has left behind (stale traffic counts as lost)
+Pending == {x \in Honest \X msgs : /\ x[2] \notin dlv[x[1]] /\ x[2] \notin lost[x[1]]
+                                   /\ x[2].round <= MaxRound
+                                   /\ (x[2].round >= st[x[1]].round \/ x[2].type = "D")}
+WinNext ==
+  \/ /\ phase = "adv" /\ nbyz < MaxByz
+     /\ \E m \in Family : m \notin msgs /\ ByzSend(m) /\ nbyz' = nbyz + 1
+     /\ UNCHANGED <<dlv, ntimeouts, ndup, pc, lost, phase, nwin>>
+  \/ /\ phase = "adv" /\ phase' = "deliv" /\ UNCHANGED <<vars, dlv, ntimeouts, ndup, nbyz, pc, lost, nwin>>
+  \/ /\ phase = "deliv" /\ Pending # {} /\ nwin < WinBudget
+     /\ LET x == CHOOSE y \in Pending : \A z \in Pending : Key(y) <= Key(z) IN
+        \/ /\ Deliver(x[1], x[2]) /\ dlv' = [dlv EXCEPT ![x[1]] = @ \cup {x[2]}] /\ UNCHANGED lost
+        \/ /\ lost' = [lost EXCEPT ![x[1]] = @ \cup {x[2]}] /\ UNCHANGED <<vars, dlv>>
+     /\ nwin' = nwin + 1 /\ UNCHANGED <<ntimeouts, ndup, nbyz, pc, phase>>
+  \/ /\ phase = "deliv" /\ Pending = {} /\ ntimeouts < MaxTimeouts
+     /\ \E p \in Honest : st[p].round < MaxRound /\ ~st[p].decided /\ Timeout(p)
+     /\ ntimeouts' = ntimeouts + 1 /\ UNCHANGED <<dlv, ndup, nbyz, pc, lost, phase, nwin>>
+MCNext == IF pc <= Len(Script) THEN ScriptStep(Script[pc])
+          ELSE IF WinFamily = "none" THEN (FreeNext /\ UNCHANGED <<pc, lost, phase, nwin>>)
+          ELSE WinNext
 MCSpec == MCInit /\ [][MCNext]_mcvars
-View == <<st, msgs, unjust, dlv, ntimeouts, ndup, nbyz, pc>>
+View == <<st, msgs, unjust, dlv, ntimeouts, ndup, nbyz, pc, lost, phase, nwin>>
 NoScript == <<>>
 D(p, t, s, r) == [a |-> "Deliver", p |-> p, t |-> t, s |-> s, r |-> r]
 T(p) == [a |-> "Timeout", p |-> p]
+\* window prefix (N = 4, Inst = 0, Byz = {2} = leader of round 2, InputsC, PreStarted): member 0 collects a PREPARE quorum
+\* for the round-1 proposal (value 2) and commits; members 1 and 3 do not; all three time out into round 2.
+ScriptPreparedThenRC ==
+  << D(0,"PP",1,1), D(1,"PP",1,1), D(3,"PP",1,1),
+     D(0,"P",0,1), D(0,"P",1,1), D(0,"P",3,1), D(1,"P",1,1), D(3,"P",3,1),
+     T(0), T(1), T(3) >>
 \* control scenario (N = 4, Inst = 0, InputsC, PreStarted): members 0,1 decide the round-1 leader's value with two
 \* votes, members 2,3 time out and decide the round-2 leader's value -- only possible when the quorum is floor(2N/3)
 ScriptFloorQuorum ==
